@@ -5,7 +5,10 @@
 //! * a reset of the process-wide export registry, so that many export histories can be
 //!   replayed in one process;
 //! * named points inside `export_and_merge`, which call an optional process-global callback
-//!   (used to log events while the registry lock is held, and to pause a thread there).
+//!   (used to log events while the registry lock is held, and to pause a thread there);
+//! * with the environment variable `TS_RS_VERIF_TRACE=<file>` every hook point also appends one
+//!   line `{"seq":..,"thread":..,"ev":..,"path":..,"ident":..}` to that file, so that a program
+//!   that cannot install a callback (the crate's own test binaries) can be traced.
 use std::{
     path::{Path, PathBuf},
     sync::{Arc, RwLock},
@@ -22,7 +25,38 @@ pub fn set_callback(cb: Option<Callback>) {
     *CALLBACK.write().unwrap_or_else(|e| e.into_inner()) = cb;
 }
 
+/// (sequence number, file) of the event trace requested through `TS_RS_VERIF_TRACE`.
+static TRACE: std::sync::OnceLock<Option<std::sync::Mutex<(u64, std::fs::File)>>> =
+    std::sync::OnceLock::new();
+
+fn trace(name: &str, path: &Path, type_name: &str) {
+    use std::io::Write;
+    let t = TRACE.get_or_init(|| {
+        let file = std::env::var_os("TS_RS_VERIF_TRACE")?;
+        let f = std::fs::OpenOptions::new()
+            .create(true)
+            .append(true)
+            .open(file)
+            .ok()?;
+        Some(std::sync::Mutex::new((0, f)))
+    });
+    if let Some(m) = t {
+        let mut g = m.lock().unwrap_or_else(|e| e.into_inner());
+        g.0 += 1;
+        let line = format!(
+            "{{\"seq\":{},\"thread\":{:?},\"ev\":{:?},\"path\":{:?},\"ident\":{:?}}}\n",
+            g.0,
+            format!("{:?}", std::thread::current().id()),
+            name,
+            path.to_string_lossy(),
+            type_name
+        );
+        let _ = g.1.write_all(line.as_bytes());
+    }
+}
+
 pub(super) fn point(name: &str, path: &Path, type_name: &str) {
+    trace(name, path, type_name);
     let cb = CALLBACK.read().unwrap_or_else(|e| e.into_inner()).clone();
     if let Some(cb) = cb {
         cb(name, path, type_name);
